@@ -11,7 +11,7 @@ CLAIMED = {
  "C01": ("exploration", "serve-sim", "4.1", "seeded deterministic simulation of serve() over a simulated entity/consumer/clock; announced length vs delivered bytes per run",
          "Seeded search over (clock, entity incl. lengths up to 2^64-1, request, chunking/Pending plan, consumer policy); every run compares Content-Length and the exact size hint with the bytes actually delivered, frame by frame. Sampling, not proof.",
          "Trusts the simulator's consumer and entity stubs; entity data is virtual (offset-identified), so lengths near 2^64 are really drained."),
- "C02": ("exploration", "serve-sim", "4.2", "seeded deterministic simulation; body identity by entity offsets against the response's own headers; entity read log",
+ "C02": ("exploration", "serve-sim+file-sim+miri-sim", "4.2", "seeded deterministic simulation; body identity by entity offsets against the response's own headers; entity read log; sequences over the crate's own file entity; concurrent serve() on one shared file entity under Miri's seeded scheduler",
          "Every 200/206 body is compared, by entity offset, with exactly the bytes its status and Content-Range name, under adversarial chunkings; the entity's get_range log must match.",
          "Identity is by offset for virtual stretches and by value for literal bytes."),
  "C06": ("exploration", "serve-sim", "4.3", "seeded deterministic simulation; independent tolerant multipart/byteranges parser over delivered frames",
@@ -20,25 +20,25 @@ CLAIMED = {
  "C07": ("fault_enumeration", "serve-sim", "4.4", "fault injection on the entity stream seam (early end, error, extra byte/chunk, empty chunks, Pending) at sampled positions; seeded",
          "Exactly one stream fault per run across response shapes, fault kinds, parts, byte positions and chunk indices; the evidence lists grid cells hit. Short/failed streams must surface an error before any clean end; long streams never pass on more than announced.",
          "Cells are sampled by seed, not enumerated; the grid reached is reported."),
- "C08": ("exploration", "chunk-sim", "4.5", "seeded operation histories over the real BodyWriter/Body pair checked against an accepted-byte-log reference model",
+ "C08": ("exploration", "chunk-sim+thread-sim+miri-sim", "4.5", "seeded operation histories over the real BodyWriter/Body pair checked against an accepted-byte-log reference model; the same oracle with the producer on its own thread (baton scheduler; Miri's seeded scheduler)",
          "Interleaved producer (write, write_all, flush, drop) and consumer (poll, poll-until-pending) operations over chunk sizes 1..65536; frames must be non-empty, a prefix of the accepted bytes at every step, complete after every flush, and equal to the accepted bytes after the writer is dropped.",
          "Operation-granularity interleavings only (inside-operation interleavings are C10's thread-sim)."),
  "C09": ("exploration", "chunk-sim", "4.6", "same histories with gzip negotiated; independent hand-written inflater/gzip parser as the client; reference model = accepted bytes",
          "Levels 1..9, chunk sizes from 1 byte, four payload kinds; after every successful flush the frames obtainable so far must inflate to every accepted byte, and the final body must be exactly one gzip member (CRC, ISIZE, no trailing bytes).",
-         "One open known finding (F6, dependency flate2/miniz_oxide withholds bytes on flush) is identified by comparing with flate2 alone fed the same calls and reported as KNOWN-FINDING; any other shortfall is a violation."),
- "C10": ("exploration", "thread-sim", "4.7", "real producer and consumer threads under a seeded baton scheduler (random / sticky / PCT) at lock-acquire, lock-release and wake granularity; deadlock = lost wake-up",
+         "One open known finding (F6, dependency flate2/miniz_oxide withholds bytes on flush) is identified narrowly (the chunk writer handed over every byte it was given - hook H4 - AND at least 30 000 bytes were written since the stream was last complete, which flate2's 32 KiB buffer needs to be full) and reported as KNOWN-FINDING; any other shortfall is a violation."),
+ "C10": ("exploration", "thread-sim+miri-sim", "4.7", "real producer and consumer threads under a seeded baton scheduler (random / sticky / PCT) at lock-acquire, lock-release and wake granularity; deadlock = lost wake-up; plus the same pair free-running inside the Miri interpreter, whose seeded scheduler pre-empts at basic-block granularity (one Miri seed = one replayable interleaving)",
          "Producer programs (write/flush/wait-until-delivered/abort/drop) against a consumer that parks on Pending until the waker of its latest poll fires, with spurious polls and fresh wakers. Oracles: no deadlock, no Pending once the writer is gone, everything written arrives before a clean end, abort never ends cleanly.",
-         "Assumes all shared state sits under the instrumented mutex (true for chunker.rs today); schedules are sampled, not enumerated."),
- "C11": ("fault_enumeration", "chunk-sim+thread-sim", "4.8", "abort and body-drop injected at drawn positions of operation histories (and, in thread-sim, at every scheduling point); per-thread heap counter for the release clause",
+         "The baton scheduler switches only at lock/wake points; races between plain or atomic accesses outside the mutex are reached by the Miri part (fewer runs, finer grain). Schedules are sampled, not enumerated."),
+ "C11": ("fault_enumeration", "chunk-sim+thread-sim+miri-sim", "4.8", "abort and body-drop (alone or both in one run) injected at drawn positions of operation histories, at every scheduling point in thread-sim, and racing freely under Miri's seeded pre-emptive scheduler; per-thread heap counter for the release clause",
          "Faults = abort / body drop before any data, mid-chunk, after a flush, after partial consumption, raw and gzip. Abort: next terminal event is an error, never end-of-stream before it, delivered bytes a prefix, later writes/flushes fail. Body drop: flushes with data and chunk-completing writes fail, accepted-without-error bytes stay below one chunk, queued memory is released.",
          "Weaker reading where the text leaves room: a flush with nothing to hand over may return Ok after the body is gone."),
  "C17": ("exploration", "chunk-sim", "4.13", "seeded configurations of streaming_body (Accept-Encoding x level x method x request representation); simulated client decodes according to the response header",
          "Vary always present; Content-Encoding: gzip iff should_gzip(request) && level > 0; the client picks its decoder from the header and must recover exactly the written bytes; HEAD gets no writer.",
          "should_gzip itself is the negotiation oracle, as the property states."),
- "C12": ("exploration", "serve-sim+chunk-sim+thread-sim+file-sim", "4.9", "per-step invariant monitor attached to every simulated consumer",
+ "C12": ("exploration", "serve-sim+chunk-sim+thread-sim+file-sim+miri-sim", "4.9", "per-step invariant monitor attached to every simulated consumer (all engines, incl. a consumer thread racing a producer thread under the baton scheduler and under Miri's seeded scheduler)",
          "size_hint()/is_end_stream() sampled before every poll in all engines; bounds must bracket what is later delivered on a clean end, exactness for serve/Body::from, and nothing but the end may follow a true end-of-stream flag.",
          "For serve only contract-honouring entities count (fault-free or failing early with Err)."),
- "C13": ("exploration", "serve-sim", "4.10", "seeded simulation with request-corruption faults; panics caught around serve() and every poll; status set invariant",
+ "C13": ("exploration", "serve-sim+miri-sim", "4.10", "seeded simulation with request-corruption faults; panics caught around serve() and every poll; status set invariant; plus serve() called from 2-3 threads on one shared ChunkedReadFile under Miri's seeded pre-emptive scheduler (crash-freedom under concurrency, UB and data races reported)",
          "By-product invariant of every serve-sim run plus a hostile-request workload (bit flips, truncations, hostile numbers, duplicated header lines, any method, extreme entities).",
          "Input dimension only as wide as the generator; a coverage-guided fuzzer would explore it further."),
  "C14": ("exploration", "serve-sim", "4.11", "two-request histories under a simulated clock with forward/backward jumps; served validators echoed back",
@@ -47,10 +47,10 @@ CLAIMED = {
  "C15": ("exploration", "serve-sim", "4.12", "paired GET/HEAD exchanges against the same simulated world; entity read-counter seam",
          "Every generated request is replayed as HEAD with the clock advanced; status and all non-clock headers must be equal, body empty with exact hint 0, zero get_range calls.",
          "Request space as wide as the serve-sim generator."),
- "C18": ("fault_enumeration", "file-sim", "4.14", "real ChunkedReadFile on real temp files with the positioned read behind a fault-injecting seam (truncate, extend, short read, EINTR, EIO at a drawn read instant)",
-         "File size classes around the 64 KiB read size x range shapes x read-size policies x one fault at a drawn read index, polled directly and through serve(); plus metadata scenarios (reopen, append, mtime change, replace by rename, directory, device).",
+ "C18": ("fault_enumeration", "file-sim+miri-sim", "4.14", "real ChunkedReadFile on real temp files with the positioned read behind a fault-injecting seam (truncate, extend, short read, EINTR, EIO at a drawn read instant); two streams interleaved at every system call; 2-3 threads sharing one instance under Miri's seeded pre-emptive scheduler",
+         "File size classes around the 64 KiB read size x range shapes x read-size policies x one fault at a drawn read index, polled directly and through serve(); plus metadata scenarios (reopen, append, mtime change, replace by rename) and the refusal clause over ten kinds of non-regular descriptors (directory, character devices, socket, socket path, FIFO, pipe, symlink handle, symlink to a directory, O_PATH directory, anonymous inode) with two regular controls.",
          "Linux local file system semantics; grid cells are sampled and reported."),
- "C20": ("fault_enumeration", "serve-sim+chunk-sim+file-sim", "4.15", "over-polling (k=1..4) after every terminal event produced under injected faults",
+ "C20": ("fault_enumeration", "serve-sim+chunk-sim+file-sim+thread-sim+miri-sim", "4.15", "over-polling (k=1..4) after every terminal event produced under injected faults",
          "After each kind of terminal event (clean end, entity error, too short, too long, end-of-stream flag) at sampled fault positions the consumer polls 1..4 more times: no panic, no data.",
          "The simulated entity's streams are fused, as the property presupposes."),
 }
@@ -85,7 +85,7 @@ def main():
     na = [{"property_id": k, "reason": v} for k, v in sorted({**NA, **pending}.items()) if k not in claimed]
     m = {
         "version": 1,
-        "setup_cmd": "cd /verif/sim && CARGO_NET_OFFLINE=true cargo build --release --offline && CARGO_NET_OFFLINE=true cargo build --profile nochecks --offline",
+        "setup_cmd": "cd /verif/sim && CARGO_NET_OFFLINE=true cargo build --release --offline && CARGO_NET_OFFLINE=true cargo build --profile nochecks --offline && (cd /verif/msim && CARGO_NET_OFFLINE=true MIRIFLAGS= cargo +nightly miri run --offline --quiet -- noop >/dev/null 2>&1; true)",
         "hooks": {
             "guard": "verif-hooks",
             "enable": "cargo feature: /verif/sim/Cargo.toml depends on http-serve = { path = \"/repo\", features = [\"verif-hooks\"] }",
@@ -96,10 +96,12 @@ def main():
         "engines": extra.get("engines", [
             {"name": "chunk-sim", "path": "/verif/sim/src/engine_b.rs", "serves_properties": ["C08","C09","C11","C12","C15","C17","C20"],
              "kind_free_text": "operation-granularity histories over the real streaming_body writer/body pair with a reference model and an independent inflater"},
-            {"name": "thread-sim", "path": "/verif/sim/src/engine_c.rs", "serves_properties": ["C10","C11","C12"],
+            {"name": "thread-sim", "path": "/verif/sim/src/engine_c.rs", "serves_properties": ["C08","C09","C10","C11","C12","C20"],
              "kind_free_text": "real producer/consumer threads under a seeded baton scheduler hooked into the chunker's mutex and the wakers"},
-            {"name": "file-sim", "path": "/verif/sim/src/engine_d.rs", "serves_properties": ["C18","C12","C20"],
+            {"name": "file-sim", "path": "/verif/sim/src/engine_d.rs", "serves_properties": ["C18","C02","C12","C20"],
              "kind_free_text": "real ChunkedReadFile over real files with a fault-injecting read seam"},
+            {"name": "miri-sim", "path": "/verif/msim/src/main.rs (scenarios) + /verif/sim/src/engine_e.rs (driver)", "serves_properties": ["C02","C08","C10","C11","C12","C13","C18","C20"],
+             "kind_free_text": "the real writer/body pair and the real ChunkedReadFile on free-running std threads inside the Miri interpreter; Miri's scheduler pre-empts at basic-block granularity from -Zmiri-seed, so one (workload, seed) pair is one exactly repeatable interleaving; deadlocks, data races and UB are reported by the interpreter"},
             {"name": "serve-sim", "path": "/verif/sim/src/engine_a.rs", "serves_properties": ["C01","C02","C06","C07","C12","C13","C14","C15","C20"],
              "kind_free_text": "deterministic simulation of serve(): simulated entity streams (chunking, Pending, faults), consumer, clock"},
         ]),
